@@ -33,12 +33,30 @@ type Script struct {
 	// both sides as soon as K bytes went through in direction Dir).
 	// "regdrop": a raw runtime peer accepts the registration and closes the connection DropMs
 	// milliseconds later without ever sending Configure.
+	// "raw": a raw runtime peer completes the handshake itself: it registers the plugin and
+	// sends Configure with RegistrationTimeout = RegMs and RequestTimeout = ReqMs (which the
+	// stub stores as its own timeouts), optionally an empty Synchronize; probes and the
+	// plugin's UpdateContainers are served by that peer. "silent": the runtime end accepts the
+	// connection and reads, but never answers RegisterPlugin and never closes. "noconfigure":
+	// it registers the plugin, then stays silent (no Configure) and never closes.
 	Kind string `json:"kind"`
 	Dir  string `json:"dir,omitempty"` // "s2r" (stub to runtime) or "r2s", for cut
 	K    int    `json:"k,omitempty"`
 	// CloseAfter: the refusing peer also closes the connection right after refusing.
 	CloseAfter bool `json:"close_after,omitempty"`
 	DropMs     int  `json:"drop_ms,omitempty"` // regdrop
+	// raw: the timeout fields of the ConfigureRequest in milliseconds (0 = a runtime that does
+	// not set them, negative and very large values included) and whether Synchronize is sent
+	RegMs  int64 `json:"reg_ms,omitempty"`
+	ReqMs  int64 `json:"req_ms,omitempty"`
+	DoSync bool  `json:"do_sync,omitempty"`
+	// CfgDelayMs: how long the plugin's own Configure handler takes in this session (a slow
+	// plugin); with a stored registration timeout shorter than that, Start gives up while the
+	// handler is still running, and the handler's result arrives during whatever comes next.
+	CfgDelayMs int `json:"cfg_delay_ms,omitempty"`
+	// Hook: one stub API call the plugin makes from INSIDE a handler of this session, the first
+	// time that handler runs (healthy and raw sessions).
+	Hook *HookCall `json:"hook,omitempty"`
 	// Activate: after a successful healthy Start wait until a probe reaches the plugin before
 	// the next action (otherwise the next action may fall into synchronization).
 	Activate bool `json:"activate,omitempty"`
@@ -56,6 +74,25 @@ type Script struct {
 	// HoldMs: cut only: having taken the k-th byte the runtime end stops reading for this
 	// long before it closes the connection.
 	HoldMs int `json:"hold_ms,omitempty"`
+}
+
+// HookCall: In = the handler ("configure", "synchronize", "event" = the probe's lifecycle
+// event, "create" = a CreateContainer request the harness sends right after Start for this
+// purpose); Call = "stop" (Stub.Stop), "update" (Stub.UpdateContainers, answered by the
+// runtime end), "update-unanswered" (the runtime end never answers it and does not close: the
+// handler stays blocked until somebody stops the stub or the connection goes), "isstarted",
+// "timeouts" (RegistrationTimeout and RequestTimeout).
+type HookCall struct {
+	In   string `json:"in"`
+	Call string `json:"call"`
+}
+
+// hookState is the run-time side of a HookCall.
+type hookState struct {
+	spec  HookCall
+	fired atomic.Bool
+	done  chan struct{} // closed when the call returned
+	pan   atomic.Value  // panic text, if the call panicked
 }
 
 // Action is one step of a history. Every action is total: it is legal in every model state.
@@ -139,19 +176,62 @@ func measureHandshake() handshake {
 
 // ---- generator --------------------------------------------------------------------------------
 
-func genScript(t *rapid.T, h handshake) *Script {
-	kinds := []string{"healthy", "healthy", "healthy", "healthy", "cut", "cut", "cut", "cut", "unreachable", "refused", "regdrop"}
+// Timeout values a raw runtime puts into its ConfigureRequest (ms): unset, tiny, a few hundred
+// ms, the defaults, very large, negative.
+var (
+	regMsDomain = []int64{0, 0, 1, 300, 300, 5000, 3600000, 1000000000000, -5}
+	reqMsDomain = []int64{0, 1, 300, 2000, 2000, 3600000, -5}
+)
+
+// hugeTimeout: a stored registration timeout above the default is the runtime's own wish to
+// wait that long; a silent runtime end is not combined with it.
+const hugeTimeout = stub.DefaultRegistrationTimeout
+
+// genScript draws a session script. est is the generator's estimate of the registration
+// timeout the stub will have stored when the script runs (ms); it is updated for the next one.
+func genScript(t *rapid.T, h handshake, est *int64) *Script {
+	kinds := []string{"healthy", "healthy", "healthy", "healthy", "cut", "cut", "cut", "cut", "unreachable", "refused", "raw", "raw", "silent", "noconfigure", "regdrop"}
 	if ev.Known(knownD8) {
 		kinds = kinds[:len(kinds)-1]
 	}
 	if ev.Known(knownD10) {
-		kinds = []string{"healthy", "healthy", "unreachable"}
+		kinds = []string{"healthy", "healthy", "unreachable", "raw"}
 	}
+	if *est <= 300 && !ev.Known(knownD10) {
+		// the stub is believed to hold a short, unset or negative registration timeout: this is
+		// where a runtime end that stays silent is cheap to sit through and most telling
+		kinds = append(kinds, "silent", "silent", "noconfigure", "noconfigure")
+		if *est <= 0 {
+			// unset or negative: on the unchanged tree every handshake of this stub now gives up
+			// at once, so little else is left to see but whether it still gives up
+			kinds = []string{"silent", "silent", "silent", "noconfigure", "noconfigure", "noconfigure", "healthy", "raw", "cut", "regdrop", "refused"}
+			if ev.Known(knownD8) {
+				kinds = kinds[:len(kinds)-2]
+			}
+		}
+	}
+	before := *est
 	s := &Script{Kind: rapid.SampledFrom(kinds).Draw(t, "kind")}
+	if s.Kind == "silent" || s.Kind == "noconfigure" {
+		// a silent runtime costs the stored registration timeout in wall time (5 s on a fresh
+		// stub, 2 s after an adaptation session): mostly drawn after a raw session with a short
+		// or unset timeout, rarely otherwise, never after a very large one
+		if *est > 300 && (*est > int64(hugeTimeout/time.Millisecond) || rapid.IntRange(0, 39).Draw(t, "slow_silent") != 23) {
+			s.Kind = "raw"
+		}
+	}
 	switch s.Kind {
+	case "raw":
+		s.RegMs = rapid.SampledFrom(regMsDomain).Draw(t, "reg_ms")
+		s.ReqMs = rapid.SampledFrom(reqMsDomain).Draw(t, "req_ms")
+		s.DoSync = rapid.Bool().Draw(t, "do_sync")
+		s.Activate = rapid.IntRange(0, 2).Draw(t, "activate") > 0
+		*est = s.RegMs
 	case "healthy":
 		s.Activate = rapid.IntRange(0, 2).Draw(t, "activate") > 0
+		*est = rtRegTimeout.Milliseconds()
 	case "cut":
+		*est = rtRegTimeout.Milliseconds() // if it gets as far as Configure (else unchanged: cheaper than estimated)
 		d := rapid.IntRange(0, 1).Draw(t, "dir")
 		s.Dir = dirNames[d]
 		lo := 0
@@ -164,8 +244,37 @@ func genScript(t *rapid.T, h handshake) *Script {
 	case "regdrop":
 		s.DropMs = rapid.SampledFrom([]int{0, 0, 1, 2, 5, 20}).Draw(t, "drop_ms")
 	}
-	if s.Kind != "healthy" && !ev.Known(knownD9) {
+	if s.Kind != "healthy" && s.Kind != "raw" && !ev.Known(knownD9) {
 		s.Fast = rapid.IntRange(0, 2).Draw(t, "fast") == 0
+	}
+	if s.Kind == "healthy" || s.Kind == "raw" || s.Kind == "cut" {
+		delays := []int{0, 0, 0, 0, 0, 0, 0, 5, 50}
+		if before > 0 && before <= 300 {
+			delays = append(delays, 400, 400, 400) // longer than the timeout the stub is believed to hold
+		}
+		s.CfgDelayMs = rapid.SampledFrom(delays).Draw(t, "cfg_delay_ms")
+	}
+	if (s.Kind == "healthy" && rapid.IntRange(0, 2).Draw(t, "hooked") == 1) || (s.Kind == "raw" && rapid.IntRange(0, 2).Draw(t, "hooked") >= 1) {
+		calls := []string{"stop", "stop", "isstarted", "timeouts"}
+		if s.Kind == "raw" {
+			calls = append(calls, "update", "update-unanswered", "update-unanswered")
+		}
+		h := &HookCall{
+			In:   rapid.SampledFrom([]string{"configure", "synchronize", "synchronize", "event", "create"}).Draw(t, "hook_in"),
+			Call: rapid.SampledFrom(calls).Draw(t, "hook_call"),
+		}
+		if h.In == "configure" && blockingCall(h.Call) {
+			// costs a whole timeout (2 s against the adaptation, the stored one against the raw
+			// peer): mostly where that is short
+			cheap := s.Kind == "raw" && before > 0 && before <= 300
+			if !cheap && rapid.IntRange(0, 39).Draw(t, "slow_hook") != 23 {
+				h.Call = "timeouts"
+			}
+		}
+		if h.In == "synchronize" && s.Kind == "raw" {
+			s.DoSync = true
+		}
+		s.Hook = h
 	}
 	if s.Kind != "unreachable" {
 		s.Sync = rapid.IntRange(0, 2).Draw(t, "sync") == 0
@@ -196,12 +305,31 @@ func genC16(t *rapid.T) C16Case {
 	}
 	var c C16Case
 	// a history begins with a Start: Wait is documented for use after Start or Run
-	c.Actions = append(c.Actions, Action{Op: "start", Script: genScript(t, h)})
+	// the generator's own idea of the history (is the stub up, which registration timeout does
+	// it hold): only used to place the costly and the telling scripts, never by the oracle
+	est := stub.DefaultRegistrationTimeout.Milliseconds()
+	up := false
+	staysUp := func(s *Script) bool {
+		return (s.Kind == "healthy" || s.Kind == "raw") && (s.Hook == nil || s.Hook.Call != "stop")
+	}
+	first := genScript(t, h, &est)
+	up = staysUp(first)
+	c.Actions = append(c.Actions, Action{Op: "start", Script: first})
 	n := rapid.IntRange(1, 7).Draw(t, "n")
 	for i := 0; i < n; i++ {
 		a := Action{Op: rapid.SampledFrom(ops).Draw(t, "op")}
-		if a.Op == "start" || a.Op == "restart" {
-			a.Script = genScript(t, h)
+		switch a.Op {
+		case "start", "restart":
+			if a.Op == "start" && up {
+				// answered "already started": no connection, nothing stored
+				scratch := est
+				a.Script = genScript(t, h, &scratch)
+			} else {
+				a.Script = genScript(t, h, &est)
+				up = staysUp(a.Script)
+			}
+		case "stop", "drop", "bulkstop", "bulkdrop":
+			up = false
 		}
 		if a.Op == "bulkstop" || a.Op == "bulkdrop" {
 			genBulk(t, &a)
@@ -256,6 +384,8 @@ type exec struct {
 
 	mu       sync.Mutex
 	pending  *Script
+	cfgDelay time.Duration // what the plugin's Configure handler sleeps, set by the Start under way
+	hook     *hookState    // in-handler call of the session under way
 	links    []*link
 	refusers []*refuser
 	dialErr  error // infrastructure problem inside the dialer
@@ -297,19 +427,36 @@ func newExec(c C16Case) (*exec, error) {
 	x.pl.OnConfigure = func(context.Context, string, string, string) (api.EventMask, error) {
 		x.mu.Lock()
 		l := x.last
+		d := x.cfgDelay
 		x.mu.Unlock()
+		if d > 0 {
+			x.cfgs.Add(1) // entered; counted once, before the slow part
+			x.runHook("configure")
+			time.Sleep(d)
+			return 0, nil
+		}
 		if l != nil {
 			x.r2sAtCfg.Store(l.bytes[r2s].Load())
 			x.s2rAtCfg.Store(l.bytes[s2r].Load())
 		}
 		x.cfgs.Add(1)
+		x.runHook("configure")
 		return 0, nil
+	}
+	x.pl.OnSynchronize = func(context.Context, []*api.PodSandbox, []*api.Container) ([]*api.ContainerUpdate, error) {
+		x.runHook("synchronize")
+		return nil, nil
 	}
 	x.pl.OnEvent = func(_ context.Context, e api.Event, pod *api.PodSandbox, _ *api.Container) error {
 		if e == api.Event_REMOVE_POD_SANDBOX && fx.IsProbe(pod) {
 			x.probes.Add(1)
+			x.runHook("event")
 		}
 		return nil
+	}
+	x.pl.OnCreate = func(context.Context, *api.PodSandbox, *api.Container) (*api.ContainerAdjustment, []*api.ContainerUpdate, error) {
+		x.runHook("create")
+		return nil, nil, nil
 	}
 	x.pl.OnClose = func() { x.closes.Add(1) }
 	if err := x.pl.NewStub(rt.Socket, x.dial); err != nil {
@@ -347,6 +494,13 @@ func newExec(c C16Case) (*exec, error) {
 }
 
 func (x *exec) cleanup() {
+	if os.Getenv("VERIF_DEV") != "" {
+		defer func(t0 time.Time) {
+			if d := time.Since(t0); d > 50*time.Millisecond {
+				fmt.Fprintf(os.Stderr, "SLOWCLEANUP %v case %s\n", d, ev.Snapshot(x.c))
+			}
+		}(time.Now())
+	}
 	verifhook.Set(nil)
 	x.mu.Lock()
 	links := append([]*link(nil), x.links...)
@@ -407,15 +561,25 @@ func (x *exec) dial(string) (net.Conn, error) {
 		return nil, err
 	}
 	var out net.Conn
-	if sc.Kind == "refused" || sc.Kind == "regdrop" {
+	var peer *refuser
+	if isRawKind(sc.Kind) {
 		c, d, err := socketpair()
 		if err == nil {
 			var r *refuser
-			accept, closeAfter, delay := false, sc.CloseAfter, time.Millisecond
-			if sc.Kind == "regdrop" {
-				accept, closeAfter, delay = true, true, time.Duration(sc.DropMs)*time.Millisecond
+			mode := rawMode{closeAfter: sc.CloseAfter, delay: time.Millisecond}
+			switch sc.Kind {
+			case "regdrop":
+				mode = rawMode{accept: true, closeAfter: true, delay: time.Duration(sc.DropMs) * time.Millisecond}
+			case "silent":
+				mode = rawMode{silent: true}
+			case "noconfigure":
+				mode = rawMode{accept: true}
+			case "raw":
+				mode = rawMode{accept: true, configure: true, regMs: sc.RegMs, reqMs: sc.ReqMs, doSync: sc.DoSync,
+					updSilent: sc.Hook != nil && sc.Hook.Call == "update-unanswered"}
 			}
-			if r, err = newRefuser(d, accept, closeAfter, delay); err == nil {
+			if r, err = newRefuser(d, mode); err == nil {
+				peer = r
 				x.mu.Lock()
 				x.refusers = append(x.refusers, r)
 				x.mu.Unlock()
@@ -448,11 +612,49 @@ func (x *exec) dial(string) (net.Conn, error) {
 		}
 	}
 	l := newLink(n, b, out, o)
+	l.peer = peer
 	x.mu.Lock()
 	x.links = append(x.links, l)
 	x.last = l
 	x.mu.Unlock()
 	return a, nil
+}
+
+// runHook makes the session's in-handler call, once, if this is the handler it is planned for.
+func (x *exec) runHook(kind string) {
+	x.mu.Lock()
+	h := x.hook
+	x.mu.Unlock()
+	if h == nil || h.spec.In != kind || h.fired.Swap(true) {
+		return
+	}
+	defer close(h.done)
+	defer func() {
+		if p := recover(); p != nil {
+			h.pan.Store(fmt.Sprint(p))
+		}
+	}()
+	switch h.spec.Call {
+	case "stop":
+		x.st.Stop()
+	case "update", "update-unanswered":
+		_, _ = x.st.UpdateContainers([]*api.ContainerUpdate{{ContainerId: "c16-from-handler"}})
+	case "isstarted":
+		if is, ok := x.st.(isStarted); ok {
+			_ = is.IsStarted()
+		}
+	case "timeouts":
+		_ = x.st.RegistrationTimeout()
+		_ = x.st.RequestTimeout()
+	}
+}
+
+func isRawKind(k string) bool {
+	switch k {
+	case "refused", "regdrop", "silent", "noconfigure", "raw":
+		return true
+	}
+	return false
 }
 
 func (x *exec) infra(err error) {
@@ -537,25 +739,51 @@ func errStr(err error) string {
 }
 
 // startBound is the property's bound for Start: the stub's registration timeout until it is
-// configured, plus its request timeout, plus the slack. Read through the public getters
-// while no session is being set up.
+// configured, plus its request timeout, plus the slack - taken from the stub's public
+// getters as they stand now (an earlier session's Configure may have changed them) where they
+// are positive and not above the defaults; the defaults are the ceiling otherwise: a stub
+// that stored 0 or a negative value still has to return in bounded time, and a Start that
+// legitimately waits out a very large stored timeout is never provoked (see tinyOrHuge).
 func (x *exec) startBound() time.Duration {
 	reg, req := x.st.RegistrationTimeout(), x.st.RequestTimeout()
-	if reg < time.Second || reg > 30*time.Second {
+	if reg <= 0 || reg > stub.DefaultRegistrationTimeout {
 		reg = stub.DefaultRegistrationTimeout
 	}
-	if req < time.Second || req > 30*time.Second {
+	if req <= 0 || req > stub.DefaultRequestTimeout {
 		req = stub.DefaultRequestTimeout
 	}
 	return reg + req + slack
 }
 
+// minUsableTimeout: below this stored registration timeout a Start against a healthy runtime
+// is not required to succeed (a stub that was told 0 or 1 ms gives up at once; it returns an
+// error in bounded time, which is all the statement asks of a failed start).
+const minUsableTimeout = time.Second
+
 func (x *exec) doStart(sc Script) *failure {
 	t0 := time.Now()
 	wasUp := x.up
+	regNow := x.st.RegistrationTimeout()
+	if (sc.Kind == "silent" || sc.Kind == "noconfigure") && regNow > hugeTimeout && !wasUp {
+		// the runtime of an earlier session asked the stub to wait this long: waiting it out
+		// against a silent runtime is legitimate, and not something to sit through
+		x.classes["start:silent-skipped-huge-timeout"] = true
+		x.rec("start", t0, "%s: not issued, the stub's registration timeout is %v", sc.Kind, regNow)
+		return nil
+	}
 	x.mu.Lock()
 	x.pending = &sc
+	x.cfgDelay = time.Duration(sc.CfgDelayMs) * time.Millisecond
+	x.hook = nil
+	if h := validHook(sc); h != nil && !wasUp {
+		x.hook = &hookState{spec: *h, done: make(chan struct{})}
+		x.classes["hook:"+h.In+":"+h.Call] = true
+	}
+	hk := x.hook
 	x.mu.Unlock()
+	if sc.CfgDelayMs >= 50 {
+		x.classes["slow-configure-handler"] = true
+	}
 	d0, c0 := x.dials.Load(), x.cfgs.Load()
 	x.mu.Lock()
 	l0 := len(x.links)
@@ -623,7 +851,7 @@ func (x *exec) doStart(sc Script) *failure {
 		}
 		lk := x.lastLink()
 		switch sc.Kind {
-		case "unreachable", "refused", "regdrop":
+		case "unreachable", "refused", "regdrop", "silent", "noconfigure":
 			return hard("Start returned nil although the runtime end was %s", sc.Kind)
 		case "cut":
 			// established, but the connection is lost (or about to be): let the cut happen on
@@ -639,8 +867,23 @@ func (x *exec) doStart(sc Script) *failure {
 			x.faulted = true
 			return x.settleIdle("cut session")
 		}
-		x.classes["start:healthy"] = true
+		x.classes["start:"+sc.Kind] = true
+		if sc.Kind == "raw" {
+			switch {
+			case sc.RegMs <= 0:
+				x.classes["raw:reg<=0"] = true
+			case sc.RegMs < 1000:
+				x.classes["raw:reg-short"] = true
+			case sc.RegMs > 5000:
+				x.classes["raw:reg-huge"] = true
+			default:
+				x.classes["raw:reg-default"] = true
+			}
+		}
 		x.up, x.cur = true, lk
+		if hk != nil {
+			return x.afterHook(hk, sc)
+		}
 		if f := x.settleUp("start"); f != nil {
 			return f
 		}
@@ -652,11 +895,31 @@ func (x *exec) doStart(sc Script) *failure {
 
 	// Start failed from the idle state.
 	x.faulted = true
+	if hk != nil && hk.fired.Load() {
+		if f := x.hookReturned(hk); f != nil {
+			return f
+		}
+	}
 	if connected > 0 {
 		x.optOut++
 	}
 	switch sc.Kind {
-	case "healthy":
+	case "healthy", "raw":
+		if hk != nil && hk.spec.In == "configure" && blockingCall(hk.spec.Call) {
+			// Start holds the stub lock for the whole handshake: a call that needs that lock (or
+			// an answer that never comes) made from inside Configure keeps the handler from
+			// returning until the runtime's or the stub's own timeout ends the handshake. Start
+			// returns an error in bounded time; that much is judged, the failure itself is not.
+			x.classes["start:failed-blocking-call-in-configure"] = true
+			x.lenient["start-fails-when-configure-handler-calls-a-lock-taking-stub-method"] = true
+			break
+		}
+		if regNow < minUsableTimeout {
+			// not judged: see minUsableTimeout
+			x.classes["start:failed-tiny-timeout"] = true
+			x.lenient["start-fails-with-stored-registration-timeout-below-1s"] = true
+			break
+		}
 		if dialed == 0 {
 			f := hard("a healthy Start failed without dialling: the stub did not use a fresh connection (dials stays %d): %v", x.dials.Load(), err)
 			if x.stillStarted {
@@ -666,12 +929,19 @@ func (x *exec) doStart(sc Script) *failure {
 			}
 			return f
 		}
-		return soft("a healthy Start on a fresh connection failed: %v", err)
+		return soft("a Start (%s) on a fresh connection to a healthy runtime failed: %v", desc, err)
 	case "cut":
 		x.classes["start:cut-failed"] = true
 		x.classes["cut:"+sc.Dir] = true
 	default:
 		x.classes["start:"+sc.Kind] = true
+		if sc.Kind == "silent" || sc.Kind == "noconfigure" {
+			if regNow <= 0 {
+				x.classes["silent:stored-timeout<=0"] = true
+			} else {
+				x.classes["silent:stored-timeout>0"] = true
+			}
+		}
 	}
 	if sc.Fast {
 		x.classes["retry-fast"] = true
@@ -692,6 +962,123 @@ func (x *exec) awaitCutOrActive(l *link) {
 		}
 		time.Sleep(time.Millisecond)
 	}
+}
+
+// validHook returns the script's in-handler call if it is in the domain: healthy and raw
+// sessions only; UpdateContainers from inside a handler only against the raw runtime peer
+// (against the adaptation it deadlocks by design: the adaptation holds its lock while it waits
+// for the plugin's answer); a Synchronize hook needs a runtime that sends Synchronize.
+func validHook(sc Script) *HookCall {
+	h := sc.Hook
+	if h == nil || (sc.Kind != "healthy" && sc.Kind != "raw") {
+		return nil
+	}
+	switch h.In {
+	case "configure", "synchronize", "event", "create":
+	default:
+		return nil
+	}
+	switch h.Call {
+	case "update", "update-unanswered":
+		if sc.Kind != "raw" {
+			return nil
+		}
+	case "stop", "isstarted", "timeouts":
+	default:
+		return nil
+	}
+	if h.In == "synchronize" && sc.Kind == "raw" && !sc.DoSync {
+		return nil
+	}
+	return h
+}
+
+func blockingCall(c string) bool { return c == "stop" || c == "isstarted" || c == "update-unanswered" }
+
+// hookReturned: a stub API call made from inside a handler returns (Stop within its bound);
+// the one that waits for an answer the runtime never gives is expected to stay blocked.
+func (x *exec) hookReturned(hk *hookState) *failure {
+	if hk.spec.Call == "update-unanswered" {
+		return nil
+	}
+	t0 := time.Now()
+	select {
+	case <-hk.done:
+	case <-time.After(hangWatchdog):
+		x.wedged = true
+		buf := make([]byte, 1<<20)
+		x.stacks = trimStacks(string(buf[:runtime.Stack(buf, true)]))
+		x.rec("hook", t0, "%s from inside the %s handler: still blocked after %v", hk.spec.Call, hk.spec.In, hangWatchdog)
+		return soft("%s called from inside the plugin's %s handler did not return within %v", hk.spec.Call, hk.spec.In, hangWatchdog)
+	}
+	if p, _ := hk.pan.Load().(string); p != "" {
+		return hard("%s called from inside the plugin's %s handler panicked: %s", hk.spec.Call, hk.spec.In, p)
+	}
+	x.rec("hook", t0, "%s from inside the %s handler: returned", hk.spec.Call, hk.spec.In)
+	return nil
+}
+
+// afterHook: the session is up and has an in-handler call planned: make the handler run
+// (Configure and Synchronize run on their own; the lifecycle event and the container request
+// are sent now), wait for the call, and account for a Stop made from inside.
+func (x *exec) afterHook(hk *hookState, sc Script) *failure {
+	lk := x.cur
+	t0 := time.Now()
+	send := func() {
+		switch hk.spec.In {
+		case "event":
+			if lk.peer != nil {
+				go func() { _ = lk.peer.probe() }()
+			} else {
+				go func() { _ = x.rt.Probe() }()
+			}
+		case "create":
+			if lk.peer != nil {
+				go func() { _ = lk.peer.create() }()
+			} else {
+				go func() {
+					_, _ = x.rt.A.CreateContainer(context.Background(), &api.CreateContainerRequest{
+						Pod:       &api.PodSandbox{Id: fx.ProbePodID},
+						Container: &api.Container{Id: "c16-probe-ctr", PodSandboxId: fx.ProbePodID},
+					})
+				}()
+			}
+		}
+	}
+	// through the adaptation a request only reaches the plugin once it is synchronized
+	for dl := t0.Add(activeBound); !hk.fired.Load() && lk.who() == "" && time.Now().Before(dl); {
+		send()
+		for i := 0; i < 20 && !hk.fired.Load(); i++ {
+			time.Sleep(500 * time.Microsecond)
+		}
+	}
+	if !hk.fired.Load() {
+		x.rec("hook", t0, "the %s handler did not run", hk.spec.In)
+		if f := x.checkUpLink("waiting for the " + hk.spec.In + " handler"); f != nil {
+			return f
+		}
+		return soft("session %d is up but its %s handler was not invoked within %v", lk.n, hk.spec.In, activeBound)
+	}
+	if f := x.hookReturned(hk); f != nil {
+		return f
+	}
+	if hk.spec.Call == "stop" {
+		// stopped from inside: an established session that ended by Stop
+		x.classes["stop:from-handler"] = true
+		x.estEnded++
+		x.up, x.cur = false, nil
+		return x.settleIdle("Stop from inside the " + hk.spec.In + " handler")
+	}
+	if hk.spec.Call == "update-unanswered" {
+		x.classes["handler-blocked-in-unanswered-call"] = true
+	}
+	if f := x.settleUp("start"); f != nil {
+		return f
+	}
+	if sc.Activate {
+		return x.waitActive("after Start")
+	}
+	return nil
 }
 
 func (x *exec) doStop() *failure {
@@ -860,11 +1247,21 @@ func (x *exec) waitActive(why string) *failure {
 	t0 := time.Now()
 	base := x.probes.Load()
 	deadline := t0.Add(activeBound)
+	var outstanding atomic.Int32
 	for {
 		if x.cur.who() != "" {
 			break
 		}
-		_ = x.rt.Probe()
+		if p := x.cur.peer; p != nil {
+			// asynchronous: a handler of this session may be blocked on purpose
+			if outstanding.Load() < 4 {
+				outstanding.Add(1)
+				go func() { _ = p.probe(); outstanding.Add(-1) }()
+			}
+			time.Sleep(500 * time.Microsecond)
+		} else {
+			_ = x.rt.Probe()
+		}
 		if x.probes.Load() > base {
 			x.rec("probe", t0, "%s: reached the plugin", why)
 			return nil
@@ -1077,6 +1474,10 @@ func (x *exec) epilogue() *failure {
 	if f := x.doStart(Script{Kind: "healthy", Activate: true}); f != nil {
 		f.msg = "epilogue (fresh Start after the history): " + f.msg
 		return f
+	}
+	if !x.up {
+		// the fresh Start failed and was not judged (stored registration timeout below 1 s)
+		x.classes["epilogue:restart-not-judged"] = true
 	}
 	if f := x.doStop(); f != nil {
 		return f
